@@ -190,7 +190,12 @@ def run(tier, selftest=False, only=None):
             continue
         q = UnitValue(v, uo)
         s = str(q)
-        for back in (parse_unitvalue(s), UnitValue(s)):
+        for fn in (parse_unitvalue, UnitValue):
+            try:
+                back = fn(s)
+            except Exception as e:  # noqa
+                rep.violation("print", "text:printed-quantity-rejected", {"value": repr(v), "text": s, "via": fn.__name__, "exc": repr(e)[:160]})
+                break
             if struct.pack("<d", back.value) != struct.pack("<d", v) or not (back.units == uo):
                 rep.violation("print", "text:quantity-round-trip", {"value": repr(v), "text": s, "back": repr(back.value)})
     # quantity text: value and unit
